@@ -328,7 +328,8 @@ class Ctl:
 
     def mark(self):
         self.n += 1
-        return "t(%d);" % self.n
+        # half of the marks also record which binding of `q` is in scope (blocks shadow it)
+        return "t(%d);" % self.n if self.rng.randrange(2) else "t('%d' + q);" % self.n
 
     def cond(self):
         r = self.rng
@@ -408,6 +409,11 @@ class Ctl:
             if form == 2:
                 return "try { %s } catch { %s } finally { %s }" % (tb, self.block(d - 1, r.randrange(0, 2)), self.block(d - 1, r.randrange(1, 3)))
             return "try { %s } catch (e) { t(typeof e); %s } finally { %s }" % (tb, self.block(d - 1, r.randrange(0, 2)), self.block(d - 1, r.randrange(1, 3)))
+        if k == 12 and r.randrange(2):
+            # a block that shadows `q`: whatever leaves it (break, continue, return, throw) must leave its scope too,
+            # and a finally block outside sees the outer binding again
+            self.ids += 1
+            return "{ let q = 'i%d'; %s %s }" % (self.ids, self.mark(), self.block(d - 1))
         if k == 12:
             self.ids += 1
             lab = "B%d" % self.ids
@@ -431,7 +437,7 @@ def control_programs(rng, tier):
     for _ in range(n):
         g = Ctl(rng)
         body = g.block(rng.randrange(2, 5), rng.randrange(2, 5))
-        out.append("let a = %d, b = %d, c = %s; const tr = []; function t(x) { tr.push(x); return tr.length; } "
+        out.append("let a = %d, b = %d, c = %s, q = 'o'; const tr = []; function t(x) { tr.push(x); return tr.length; } "
                    "try { %s } catch (e) { t('uncaught:' + String(e && e.message || e)); } out(tr.join(','), a, b, c);"
                    % (rng.randrange(3), rng.randrange(3), rng.choice(["'x'", "''", "'q'"]), body))
     return out
